@@ -974,6 +974,8 @@ Proof.
   - destruct (select_callee rg oracle) as [[cid next]|] eqn:S; [|discriminate].
     destruct (lookup r cid) as [cs|]; [|discriminate].
     destruct (opt_bool opts "progress" && _); [discriminate|].
+    destruct (ppt_active opts && negb (sess_feature caller "caller" f_ppt)); [discriminate|].
+    destruct (ppt_active opts && negb (sess_feature cs "callee" f_ppt)); [discriminate|].
     destruct (negb (reg_disclose rg) && _ && _); [discriminate|].
     match goal with |- context [let '(_, _) := (if ?c then _ else _) in _] => destruct c end;
       intros H; inversion H; subst; do 3 eexists; (split; [reflexivity|]); intros _; eapply select_callee_In; eauto.
@@ -986,7 +988,7 @@ Definition pub_events (lk : N -> option session) (pub : session) (pubid : N) (op
   let disclose := opt_bool opts "disclose_me" in
   flat_map (fun '((s, send_topic) : subscription * bool) =>
               map (fun rs => (s_id rs, REvent (sub_id s) pubid
-                                         (event_details topic send_topic disclose pub (Some rs)) args kw))
+                                         (ppt_part opts ++ event_details topic send_topic disclose pub (Some rs)) args kw))
                   (sub_targets lk (s_id pub) exclude_pub (make_filter opts) s)) subs.
 
 Lemma pub_event_fold : forall lk now pub pubid opts topic args kw subs b o,
@@ -1004,13 +1006,14 @@ Qed.
 
 Theorem publish_delivers_through_matching : forall cfg lk now b pg pub req opts topic args kw,
     valid_uri (c_strict cfg) "" topic = true ->
+    publish_aborts cfg pub opts topic = false ->
     opt_bool opts "disclose_me" && negb (c_disclose cfg) = false ->
     snd (publish cfg lk now b pg pub req opts topic args kw) =
     pub_events lk pub (pg + 1) opts topic args kw (matching_subs b topic)
     ++ (if opt_bool opts "acknowledge" then [(s_id pub, RPublished req (pg + 1))] else []).
 Proof.
-  intros cfg lk now b pg pub req opts topic args kw Hv Hd. unfold publish.
-  rewrite Hv, Hd. cbn [negb].
+  intros cfg lk now b pg pub req opts topic args kw Hv Ha Hd. unfold publish.
+  rewrite Hv, Ha, Hd. cbn [negb].
   pose proof (pub_event_fold lk now pub (pg + 1) opts topic args kw (matching_subs b topic) b []) as F.
   destruct (fold_left _ (matching_subs b topic) (b, [])) as [b1 o]. cbn [snd] in *. now rewrite F.
 Qed.
@@ -1023,6 +1026,7 @@ Theorem subscription_match_agrees : forall r d0 margs mkw oracle t,
     (r, MYield [ids_value (map (fun p => sub_id (fst p)) (matching_subs (r_broker r) t))] [], None) /\
     forall pub req opts args kw,
       valid_uri (c_strict (r_cfg r)) "" t = true ->
+      publish_aborts (r_cfg r) pub opts t = false ->
       opt_bool opts "disclose_me" && negb (c_disclose (r_cfg r)) = false ->
       snd (publish (r_cfg r) (lookup r) (r_now r) (r_broker r) (r_pubgen r) pub req opts t args kw) =
       pub_events (lookup r) pub (r_pubgen r + 1) opts t args kw (matching_subs (r_broker r) t)
